@@ -259,8 +259,13 @@ def r6(rr, repo):
     ok1 = ok2 = False
     if ifs:
         t = ifs[0].test
-        single_first = isinstance(t, ast.Compare) and U(t.left) == f'len({vname})' and isinstance(t.ops[0], ast.Eq) and U(t.comparators[0]) == '1'
-        single, multi = (ifs[0].body, ifs[0].orelse) if single_first else ([], [])
+        swap = False
+        while isinstance(t, ast.UnaryOp) and isinstance(t.op, ast.Not):
+            t, swap = t.operand, not swap
+        recognised = isinstance(t, ast.Compare) and len(t.ops) == 1 and U(t.left) == f'len({vname})' and isinstance(t.ops[0], (ast.Eq, ast.NotEq)) and U(t.comparators[0]) == '1'
+        if recognised and isinstance(t.ops[0], ast.NotEq):
+            swap = not swap
+        single, multi = ((ifs[0].orelse, ifs[0].body) if swap else (ifs[0].body, ifs[0].orelse)) if recognised else ([], [])
         for s in single:
             if isinstance(s, ast.Assign) and U(s.targets[0]) == f'{vname}[0].id' and U(s.value) == kname:
                 ok1 = True
